@@ -64,6 +64,38 @@ PROPS = {
                       "Executor.GetTask are run on generated tables over an alphabet with regexp metacharacters and must equal the model.",
         "level_note": "Trusted: Lean kernel; harness canonicalisation; Go regexp semantics for the quoted pattern; fuzzy suggestion is an oracle.",
     },
+    "C07": {
+        "lean": "Props.C07",
+        "domains": [{"name": "sched"}],
+        "trusted": ["the verif-tagged event-log hooks in /repo record acquire-type events after the slot is really taken and release-type "
+                    "events before it is really given back, so the slot count read off the log never exceeds the real one",
+                    "dedup keys identify the task (GetHash): assumption `KeysByTask` of the liveness theorems"],
+        "assumptions": ["commands are shell builtins (`exit N`); the Go scheduler is perturbed by seeded delays at hook points, not controlled"],
+        "level_text": "Theorems over every trace the executor LTS accepts (all programs, flags, interleavings): slots in use = number of activations "
+                      "holding one <= N, shell commands run only while holding a slot (C07_bound, C07_tokens_are_holders, raw monitors boundOk/holdMon); "
+                      "a dependency may enter as soon as its parent waits, acquire waits only for a free slot; deadlock freedom for every program without "
+                      "a reference cycle through a deduplicated task (C07_no_deadlock), termination of every program (C07_terminates_all), a quiescent "
+                      "configuration is final (C07_completes); fewer than MaximumTaskCall activations of a task pass the counter, the others return 204 "
+                      "(201 wrapping through task: calls). FALSE as stated for cycles through run: once tasks: machine-checked deadlock "
+                      "(C07_once_cycle_deadlock). Tie: event log of the real executor replayed through the same `replay`, boundOk evaluated on the raw log; "
+                      "MaximumTaskCall / `>=` / code 204 from Gen.Codes.",
+        "level_note": "Trusted: Lean kernel; hook placement; harness rendering of abstract programs; liveness is a theorem about the model, the harness "
+                      "only observes that sampled runs finish.",
+    },
+    "C13": {
+        "lean": "Props.C13",
+        "domains": [{"name": "sched"}],
+        "trusted": ["the verif-tagged event-log hooks in /repo (verifhook.Ev calls in task.go); guard outcomes of the generated Taskfile are what the "
+                    "generator says (a wrong rendering shows up as a rejected trace)"],
+        "assumptions": ["guard outcomes are data of the abstract program (platform, requires, enum, precondition, prompt)"],
+        "level_text": "Theorems over every step and every accepted trace, all flags incl. --force/--force-all/--yes: platform/requires/enum decided at "
+                      "enter (ok/206/207, no slot, no command, not counted as a call); failed precondition => only precondFail (generic) or ctxErr; prompt "
+                      "without --yes => guardsPassed rejected, 205; an activation of a guarded task never starts a command (C13_no_cmd: guardedNoCmd, "
+                      "noCmdMon); a failed precondition gives an error result (C13_precond_fails, waiters excepted); 202 for internal tasks before any event; "
+                      "errors propagate through deps and task: calls (201 wrapping for direct callers). Codes tied to Gen.Codes. Tie: event log replay + "
+                      "guardedNoCmd on the raw log.",
+        "level_note": "Trusted: Lean kernel; hook placement; harness rendering of guards.",
+    },
     "C14": {
         "lean": "Props.C14",
         "domains": [{"name": "sched"}],
